@@ -11,6 +11,8 @@ CLAIMED = {
          "The structural premises of the standard once-cell argument are decided on every path of set/try_load; interleavings themselves are not explored (memory-model reasoning is the trusted argument)."),
  "C04": ("forwarding tables, single-RMW atomic discipline, symbolic value of the CAS closure, loop-shape and conversion tables over MIR/HIR + auto-trait witnesses",
          "With std atomics trusted the single-RMW rule is sufficient (not only necessary) for exactly-once application; decided for every handle/atomic/Arc/From region and every HistogramFn impl in the workspace."),
+ "C14": ("ownership-effect table per (function x kind arm) over MIR (edge-dominated arm regions, argument provenance, release-on-unwind reachability), encoding-table agreement, unsafe-impl bounds + witnesses",
+         "For both Cowable impls every kind arm of owned_from_parts/clone_from_parts/drop_from_parts is decided to perform exactly the acquire/release effects the encoding requires, on normal and unwind paths; Vec/Arc raw-parts APIs are trusted."),
 }
 checks = []
 for p in props:
